@@ -138,16 +138,29 @@ def contract_ckd_state(inst, cls, recorder):
 
     def ident_of(self):
         # the key MATERIAL and metadata a caller can observe (not object identities or lazily filled caches)
-        kb = bytes(self.key)
-        if len(kb) == 33 and kb[0] == 0:
-            kb = kb[1:]
-        return (kb, bytes(self.chain_code), self.depth, self.index, bool(self.testnet))
+        try:
+            kb = bytes(self.key)
+            if len(kb) == 33 and kb[0] == 0:
+                kb = kb[1:]
+            return (kb, bytes(self.chain_code), self.depth, self.index, bool(self.testnet))
+        except Exception as e:  # noqa  (an observer never raises into the call it observes)
+            if len(CALLBACK_ERRORS) < 20:
+                CALLBACK_ERRORS.append("ckd.ident_of: %r" % (e,))
+            return None
 
     def n_children(self):
-        return len(self.children)
+        try:
+            return len(self.children)
+        except Exception:  # noqa
+            return -1
 
     def parent_unchanged(self, result, OLD):
-        recorder("ckd.parent_identity_unchanged", ident_of(self) == OLD.ident, self, result, OLD.ident)
+        try:
+            if OLD.ident is not None:
+                recorder("ckd.parent_identity_unchanged", ident_of(self) == OLD.ident, self, result, OLD.ident)
+        except Exception as e:  # noqa
+            if len(CALLBACK_ERRORS) < 20:
+                CALLBACK_ERRORS.append("ckd.parent_unchanged: %r" % (e,))
         return True
 
     def child_appended(self, result, OLD):
@@ -159,7 +172,10 @@ def contract_ckd_state(inst, cls, recorder):
         except Exception:  # noqa  (whatever container the library keeps its children in: this is an observation only)
             ok = None
         # bookkeeping of `children` is not part of any property: reported as an observation, never a verdict
-        recorder("ckd.child_appended(observation)", True if ok else None, self, result, OLD.n)
+        try:
+            recorder("ckd.child_appended(observation)", True if ok else None, self, result, OLD.n)
+        except Exception:  # noqa
+            pass
         return True
 
     f = raw
